@@ -93,6 +93,10 @@ def run(ctx):
     for s in base:
         if rng.random() < (0.6 if ctx.quick() else 1.0):
             strings.add(strgen.mutate(s, rng, chars))
+    for s in base:
+        # letter-case forms of every generated string (a pattern compiled with other flags than its union shows here)
+        for v in (s.lower(), s.upper(), s.swapcase(), s.title()):
+            if v != s and rng.random() < (0.35 if ctx.quick() else 1.0): strings.add(v)
     for _ in range(2000):
         strings.add(''.join(rng.choice(chars) for _ in range(rng.randint(0, 6))))
     strings = sorted(strings)
